@@ -8,8 +8,8 @@ import SlipVerif.Driver.Util
    L    : n | t | i<dec> | o<nat> | f<tok> | d<tok> | s<hex> | y<hex> | m<tok> | ( L* ) | . L
    G    : n | T | F | i<bits>:<dec> | u<bits>:<dec> | f<tok> | d<tok> | s<hex> | m<tok> | [ G* ] | { (k<hex> G)* }
 
-   json ops <J> <op>*        op = G path | A path | H path | W path | S path J | R path
-        reply: ok <result> ( | <result> )*     result = some J / none / list J* / T / F / ok J / err <class>
+   json ops <J> <op>*        op = G path | N path | A path | H path | W path | S path J | R path
+        reply: ok <result> ( | <result> )*     result = some J / none / <L> (N: toLisp of the node, nil when none) / list J* / T / F / ok J / err <class>
                (evaluation stops after the first err)
    json write c|i<n> <J>     reply: ok s<hex text>
    json parse s<hex text>    reply: ok <J> | err <class>
@@ -252,6 +252,11 @@ def runOps : Nat → J → List String → List String → Option (List String)
       let res := match get p doc with
         | some j => "some " ++ join (encJ j)
         | none => "none"
+      runOps fuel doc r (res :: acc)
+    else if op = "N" then
+      let res := match get p doc with
+        | some j => join (encL (toLisp j))
+        | none => "n"
       runOps fuel doc r (res :: acc)
     else if op = "A" then
       runOps fuel doc r (join ("list" :: encJL (getAll p doc)) :: acc)
